@@ -9,7 +9,8 @@ import json, os, shutil, subprocess, sys
 src, name, props = sys.argv[1], sys.argv[2], sys.argv[3:]
 meta = json.load(open(os.path.join(src, "meta.json")))
 env = dict(os.environ, GOFLAGS="-mod=mod", GOPROXY="off", GOSUMDB="off", GOTOOLCHAIN="local")
-W = "/tmp/rw/seed_%d" % os.getpid()
+W = os.environ.get("SEED_WT", "/tmp/rw/seedwt")   # fixed path: the Go build cache is keyed on it, so sequential runs share it
+subprocess.run(["git", "-C", "/repo", "worktree", "remove", "--force", W], stderr=subprocess.DEVNULL)
 os.makedirs("/tmp/rw", exist_ok=True)
 subprocess.run(["git", "-C", "/repo", "worktree", "add", "--detach", W, "HEAD", "-q"], check=True)
 res = dict(meta=meta)
